@@ -58,11 +58,15 @@ Record mapper := mkMapper {
   m_cmtn : list string    (* can_map_to_nothing, as stored by __init__ (already sorted) *)
 }.
 
-(* __init__: sorted(cmtn, key=lambda x: 1 if wildcard is not None and x in wildcard else 0), stable *)
-Definition cmtn_key (w : option string) (x : string) : bool :=
-  match w with Some w' => is_infix x w' | None => false end.
+(* __init__: sorted(cmtn, key=lambda x: 1 if _is_wildcard(x) else 0), stable, where _is_wildcard(x) is
+   x == wildcard, compared after lower-casing both when ignore_case is set (None wildcard: never) *)
+Definition cmtn_key (w : option string) (ic : bool) (x : string) : bool :=
+  match w with
+  | Some w' => if ic then String.eqb (lower x) (lower w') else String.eqb x w'
+  | None => false
+  end.
 Definition mk_mapper (w : option string) (ic : bool) (cmtn : list string) : mapper :=
-  mkMapper w ic (filter (fun x => negb (cmtn_key w x)) cmtn ++ filter (cmtn_key w) cmtn).
+  mkMapper w ic (filter (fun x => negb (cmtn_key w ic x)) cmtn ++ filter (cmtn_key w ic) cmtn).
 
 Definition count_sym (c : string) (l : list string) : Z :=
   Z.of_nat (List.length (filter (String.eqb c) l)).
